@@ -442,13 +442,6 @@ Proof.
   - congruence.
 Qed.
 
-Definition nonpositive_in (last : Q) (o : op) : bool :=
-  match o with
-  | Beep None _ _ _ => qle last q0
-  | Melody _ _ => false
-  | _ => nonpositive_call o
-  end.
-
 Lemma nonpositive_step pin neg tbl st o :
   nonpositive_in (b_last st) o = true ->
   tones (snd (dstep pin neg tbl st o)) = [] /\ b_last (fst (dstep pin neg tbl st o)) = b_last st.
